@@ -104,6 +104,10 @@ def curated():
     a(make('fx_only_u32', [P('f', 'u32')], 'ae'))   # single-parameter lists: element < must be the value type's <
     a(make('pl_only_u16', [P('p', 'u16')], 'none'))
     a(make('fx_only_f32', [P('f', 'f32', 8)], 'none'))
+    # single-parameter lists of signed types: element < must be the numeric order (never a byte-wise one)
+    a(make('pl_only_ch', [P('p', 'ch')], 'ae'))
+    a(make('fx_only_ch', [P('f', 'ch')], 'none'))
+    a(make('fx_only_i32', [P('f', 'i32', 4)], 'ae'))
     a(make('fx_ptr', [P('p', 'ptr'), P('f', 'ptr')], 'none'))
     a(make('fx_pad_u8', [P('p', 'u8'), P('f', 'u16', 2), P('p', 'u8', 4)], 'all'))
     # trailing-alignment propagation across a FixedSize, an unaligned plain parameter and an aligned one
